@@ -230,6 +230,14 @@ def _pair(r, scene, tags, case, j, third=False):
             r.inconclusive("reference run unexpectedly complex")
         return
     r.count("pairs_complex_confirmed")
+    if not (np.all(np.isfinite(a0["E"])) and np.all(np.isfinite(a0["H"]))):
+        # the REAL-valued run itself is not finite (seen with a plane source whose plane cuts a Lorentz box that has
+        # Re(eps) < 0 at the carrier frequency: the injected impedance is not a real number). There is nothing for the
+        # complex run to reproduce; the scene is counted, not judged. A non-finite complex run against a finite real
+        # run is still a violation below.
+        r.count("real_reference_run_not_finite_scenes_skipped")
+        r.branch("real_reference_run_not_finite")
+        return
     ssig = _scene_sig(scene, tags)
     for f in scene["faces"].values():
         r.branch("face:" + f["type"])
